@@ -1,5 +1,6 @@
 SPECIFICATION Spec
 CONSTANTS MaxRaw = 5
 AnyInput = TRUE
-INVARIANTS TypeOK NoError OutIsPrefix FinalOutput Progress Mirrors Lenient
+PROPERTY StepsAgree
+INVARIANTS RunAgrees TypeOK NoError OutIsPrefix FinalOutput Progress Mirrors Lenient
 CHECK_DEADLOCK FALSE
